@@ -2,6 +2,6 @@
    ExtrOcamlBasic only: bool, option, unit, list, prod, sumbool, sumor map to
    OCaml's own; nat / N / Z / positive stay the extracted inductive types. *)
 From Coq Require Import ExtrOcamlBasic.
-From PG Require Import Model.UnionFindM Model.CsrM Model.AdjListM Model.MatrixM Model.GraphMapM Model.GraphIO Model.StableIO Model.Traversal Model.AlgoBasic Model.AlgoIO Model.Graph6M Model.DotM Model.SerdeIO Model.AcyclicIO Model.FullView Model.IsoM Model.CloneIO Model.Vf2M.
+From PG Require Import Model.UnionFindM Model.CsrM Model.AdjListM Model.MatrixM Model.GraphMapM Model.GraphIO Model.StableIO Model.Traversal Model.AlgoBasic Model.AlgoIO Model.Graph6M Model.DotM Model.SerdeIO Model.AcyclicIO Model.FullView Model.IsoM Model.CloneIO Model.Vf2M Model.SerdeGM.
 Extraction Language OCaml.
-Separate Extraction UnionFindM.run UnionFindM.uf_new CsrM.run_case AdjListM.run_case MatrixM.run_case GraphMapM.run_case GraphIO.run_case StableIO.run_case Traversal.run_case AlgoBasic.run_case AlgoIO.run_case Graph6M.run_case DotM.run_case SerdeIO.run_case_g SerdeIO.run_case_s AcyclicIO.run_case FullView.run_case IsoM.run_case CloneIO.run_case_g CloneIO.run_case_s Vf2M.vf2_run_case.
+Separate Extraction UnionFindM.run UnionFindM.uf_new CsrM.run_case AdjListM.run_case MatrixM.run_case GraphMapM.run_case GraphIO.run_case StableIO.run_case Traversal.run_case AlgoBasic.run_case AlgoIO.run_case Graph6M.run_case DotM.run_case SerdeIO.run_case_g SerdeIO.run_case_s AcyclicIO.run_case FullView.run_case IsoM.run_case CloneIO.run_case_g CloneIO.run_case_s Vf2M.vf2_run_case SerdeGM.run_case.
